@@ -9,12 +9,14 @@ enters as the hypothesis `DecoderOk`.
 Main statements
 * `print_total_safe`   for EVERY byte list: printing (repaired code) ends with a result code, never
                        with `abort` / `oob` / exhausted loop bound, and the temporary ring is released;
-* `d25_abort_witness`, `d24_oob_witness`, `d50_oob_witness`, `d51_oob_witness`, `d52_rc_witness`
+* `d25_abort_witness`, `d24_oob_witness`, `d50_oob_witness`, `d51_oob_witness`, `d52_rc_witness`,
+  `each_repair_needed`, `orig_fails` (Props/C15Wit.lean)
                        concrete files on which the code before each repair fails;
 * `dump_roundtrip`     printing the dump of a ring that satisfies the C07/C11 representation
                        invariant prints exactly the chunks of its abstract FIFO, oldest first
                        (`printChunks`), for all ring sizes, wrap positions and contents;
-* `records_roundtrip`  `printChunks` of well-formed records prints each with its priority,
+* `records_roundtrip`, `dump_records_roundtrip` (Props/C15Rec.lean)
+                       `printChunks` of well-formed records prints each with its priority,
                        seconds, milliseconds, function, line, tags and decoded message.
 -/
 import QbVerif.Lemmas.DumpRing
